@@ -1064,6 +1064,13 @@ def nested_stream(c, batch, function, G, rng, topos, N, speceval):
             c.failing_input('replace:announced-arguments-wrong', '.arguments of a nested replacement is not the set of unreplaced arguments', dict(replay, expected=sig_of(want)))
         values = G.sample_values(rng, want)
 
+        mag = {'m': 1.}      # largest intermediate value of the staged evaluations: the rounding error of the result scales with its square (quadratic integrands)
+
+        def close(a, b):
+            a, b = numpy.asarray(a), numpy.asarray(b)
+            scale = max(1., float(numpy.abs(a).max(initial=0.)), float(numpy.abs(b).max(initial=0.)), 4 * mag['m']**2)
+            return a.shape == b.shape and bool(numpy.isfinite(a).all()) and float(numpy.abs(a - b).max(initial=0.)) <= 1e-9 * scale
+
         def staged(vals, uniform=False, top=top, nodes=nodes, comps=comps):
             env = dict(vals)
             # post-order: the value of every node is computed after the values of its children are bound to its own arguments
@@ -1074,6 +1081,7 @@ def nested_stream(c, batch, function, G, rng, topos, N, speceval):
                 k, v = feval(function, nd.component(uniform=True) if uniform else comps[nd.ident], e)
                 if k != 'ok': return k, v
                 out[nd.ident] = v
+                mag['m'] = max(mag['m'], float(numpy.abs(v).max(initial=0.)))
             return 'ok', out[top.ident]
 
         ks, wantv = staged(values)
@@ -1117,14 +1125,14 @@ def nested_stream(c, batch, function, G, rng, topos, N, speceval):
             for name, fi, uni in variants():
                 kw, wv = staged(values, uniform=True) if uni else ('ok', wantv)
                 kv, gv = X.guarded(lambda: numpy.asarray(function.eval(top.build(rng, force_inside=fi, uniform=uni), values)), 30)
-                if kw == 'ok' and kv == 'ok' and X.arrays_close(gv, wv, rtol=1e-9, atol=1e-11):
+                if kw == 'ok' and kv == 'ok' and close(gv, wv):
                     c.count('nested:loop-id-collision(known-finding):fixed-by-' + name)
                     return dict(detail, signature=OUTSIDE_SIG, variant_that_evaluates_correctly=name)
                 detail['variant:' + name] = tolist(gv) if kv == 'ok' else repr(gv)
             return dict(detail, signature='replace:nested:' + ('value-differs' if kind == 'ok' else 'evaluation-raises:' + (type(got).__name__ if kind == 'exception' else kind)))
 
         kr, got = feval(function, R, values, timeout=30)
-        real_bad = kr != 'ok' or not X.arrays_close(got, wantv, rtol=1e-9, atol=1e-11)
+        real_bad = kr != 'ok' or not close(got, wantv)
         what = 'a nested replacement (replacement values that are integrals containing replacements, %d element loops deep) does not evaluate to the integrand with the replaced arguments bound to the values of their replacements' % chain
         if not real_bad: c.count('nested-replace:agrees-with-staged-real-evaluation')
         if real_bad:
@@ -1167,7 +1175,7 @@ def nested_stream(c, batch, function, G, rng, topos, N, speceval):
             d = json.loads(l); d['op'] = 'expr'; d.update(extra); reqs.append(d)
 
         li = len(roots) - 1
-        def handler(a_sym, a_conc, R=R, L=L, P=P, got=got, allv=allv, values=values, dvals=dvals, replay=replay, staged=staged, what=what, li=li, top=top, variants=variants, id_reused=id_reused):
+        def handler(a_sym, a_conc, R=R, L=L, P=P, got=got, allv=allv, values=values, dvals=dvals, replay=replay, staged=staged, what=what, li=li, top=top, variants=variants, id_reused=id_reused, mag=mag):
             out = settle(c, 'nested-replace', a_sym['binds'][0], a_conc['binds'][0], a_conc['results'][1], lambda: (False, {}), 'replace:nested:value-differs', what, replay)
             spec_eval(c, speceval, a_conc['results'][1], got, 'nested replacement', replay)
             if L is None: return
@@ -1183,7 +1191,7 @@ def nested_stream(c, batch, function, G, rng, topos, N, speceval):
                     if k1 != 'ok' or k2 != 'ok': return False, {}
                     fd = (fp - fm) / (2 * h)
                     errs.append(float(numpy.abs(fd - lv).max(initial=0.)))
-                scale = max(1., float(numpy.abs(fd).max(initial=0.)), float(numpy.abs(lv).max(initial=0.)))
+                scale = max(1., float(numpy.abs(fd).max(initial=0.)), float(numpy.abs(lv).max(initial=0.)), 4 * mag['m']**2)
                 agrees = min(errs) <= 1e-6 * scale or errs[-1] <= .25 * errs[0]
                 return (not agrees), dict(finite_difference_of_the_staged_evaluation=tolist(fd), real_result=tolist(lv), errors_for_decreasing_h=errs, arguments={k: tolist(v) for k, v in allv.items()})
             ran = {}
